@@ -62,6 +62,7 @@ func scenarioC03(r *Run) {
 	g := NewGen(r)
 	g.PlainQER = true
 	g.DrawAvoid()
+	g.PDIOrders = true
 	runHistory(r, g, histCfg{prop: "C03", maxOps: 3 + r.Ch.Choose(12, "nops"), allowKill: true,
 		checkImage: func(ctx, cause string) { r.CheckBESSImage("C03", ctx, cause) }})
 	r.CheckNoPanics("C03")
@@ -84,6 +85,19 @@ func runHistory(r *Run, g *Gen, hc histCfg) {
 		p := r.Peers[r.Ch.Choose(len(r.Peers), "peer")]
 		live := r.LiveSessions()
 		kind := r.Ch.Choose(8, "op")
+		if len(live) > 0 && r.Ch.Choose(12, "assoc-setup-again") == 1 {
+			// the control plane's Association Setup Request arrives once more on the
+			// live association (a retransmission after a slow answer, a duplicate):
+			// answered, and the sessions stay what they are
+			q := live[r.Ch.Choose(len(live), "sess")].Peer
+			as := q.Associate()
+			r.Op("Association Setup Request of peer%d repeated on the live association -> answered=%v", q.Idx, as != nil)
+			r.Skel("assoc-again")
+			if as != nil {
+				hc.checkImage(fmt.Sprintf("after the Association Setup Request of peer%d was repeated on its live association", q.Idx), "assoc-again")
+			}
+			continue
+		}
 		if !hc.up4 && !idleDone && len(live) > 0 && r.Ch.Choose(10, "idle-then-release") == 1 {
 			kind = 8
 		}
